@@ -101,9 +101,19 @@ func (sp Spec) ErrKind(id, off int) int {
 		return 3
 	case 6:
 		return 4
+	case 7:
+		return 5
 	}
 	return 0
 }
+
+// NestedErrText is what the nested Parse call behind error kind 5 reports (see NestedKey).
+const NestedErrText = "nested.txt:1:0 (0): invalid entrypoint"
+
+// NestedKey: the harness stores a func() error under this globalStore key that makes a nested call of
+// the package's own Parse (an included file, an embedded fragment) and returns the error of that call
+// as it is - an error whose dynamic type is the generated parser's own error list.
+const NestedKey = "monNested"
 
 // PanicKind returns 0 none, 1 error, 2 string, 3 PanicVal.
 func (sp Spec) PanicKind(id, off int) int {
@@ -421,7 +431,7 @@ func (sp Spec) common(kind byte, gs, st map[string]any, id int, text []byte, lin
 	return labels, tr, idx
 }
 
-func (sp Spec) fault(id, off int) error {
+func (sp Spec) fault(gs map[string]any, id, off int) error {
 	switch sp.PanicKind(id, off) {
 	case 1:
 		panic(&PanicErr{ID: id})
@@ -439,6 +449,11 @@ func (sp Spec) fault(id, off int) error {
 		return errors.Join(&OwnErr{ID: id}, ErrSentinel)
 	case 4:
 		return SliceErr{strconv.Itoa(id)}
+	case 5:
+		if f, ok := gs[NestedKey].(func() error); ok {
+			return f()
+		}
+		return errors.New(NestedErrText)
 	}
 	return nil
 }
@@ -449,7 +464,7 @@ func Act(gs, st map[string]any, id int, sp Spec, text []byte, line, col, off int
 	if sp.Scr {
 		scribble(st)
 	}
-	err := sp.fault(id, off)
+	err := sp.fault(gs, id, off)
 	var v any
 	switch sp.R {
 	case 0:
@@ -479,7 +494,7 @@ func Pred(gs, st map[string]any, id int, sp Spec, text []byte, line, col, off in
 	if sp.Scr {
 		scribble(st)
 	}
-	err := sp.fault(id, key)
+	err := sp.fault(gs, id, key)
 	return sp.PredBool(id, key, idx, n), err
 }
 
@@ -490,5 +505,5 @@ func State(gs, st map[string]any, id int, sp Spec, text []byte, line, col, off i
 	if st != nil {
 		ApplyStateOps(st, id, key, sp.S)
 	}
-	return sp.fault(id, key)
+	return sp.fault(gs, id, key)
 }
